@@ -388,7 +388,14 @@ static int exec_op_inner(jval *op, int incb)
 	if (!strcmp(a, "maxclr")) { event_base_get_max_events(base, (unsigned)j_int(op, "n", 0), 1); return 0; }
 	if (!strcmp(a, "feed")) { char c = 'x'; fed[e] = 1; return write(pipes[e][1], &c, 1) == 1 ? 0 : -1; }
 	if (!strcmp(a, "drain")) { char b[64]; fed[e] = 0; while (read(pipes[e][0], b, sizeof b) > 0) ; return 0; }
-	if (!strcmp(a, "raise")) { raise(SIGUSR1); return 0; }
+	if (!strcmp(a, "raise")) {
+		/* only while libevent's handler is installed (after an injected allocation failure the add of the
+		 * signal event may have failed: the default disposition would kill the driver) */
+		struct sigaction sa; sigset_t cur;
+		sigemptyset(&cur); sigprocmask(SIG_BLOCK, NULL, &cur);
+		if (sigaction(SIGUSR1, NULL, &sa) == 0 && sa.sa_handler == SIG_DFL && !sigismember(&cur, SIGUSR1)) return -96; /* (signalfd keeps it blocked) */
+		raise(SIGUSR1); return 0;
+	}
 	if (!strcmp(a, "adv")) { vt_now_ns += j_int(op, "t", 0) * tick_ns; return 0; }
 	if (!strcmp(a, "upd")) return event_base_update_cache_time(base);
 	if (!strcmp(a, "script")) { script[e] = j_get(op, "s"); return 0; }
